@@ -104,7 +104,7 @@ Proof. exact follow_rekey. Qed.
 Print Assumptions C05_doc_handle_follows_rekey.
 
 Theorem C05_doc_handle_follows_remove : forall (frepr : fl -> str) js j f d,
-  nlookup j (jobs js) = Some (f, d) -> nmem f (dirs js) = true ->
+  nlookup j (jobs js) = Some (f, d) -> nmem f (dirs js) = true -> depth (core js) = 0%nat ->
   let js1 := fst (jstep frepr merge js (JRemove j)) in
   nlookup j (jobs js1) = Some (f, None) /\ nlookup f (files (core js1)) = None /\ nmem f (dirs js1) = false /\
   exists js2 h, resolve_doc frepr merge js1 j = Some (js2, h) /\
@@ -121,6 +121,26 @@ Theorem C05_doc_handle_follows_op : forall (frepr : fl -> str) js j f p o,
 Proof. exact follow_op. Qed.
 Print Assumptions C05_doc_handle_follows_op.
 
+(* remove() inside a buffered block (added with seeded change C05-3).  The model follows the dependency: the
+   dropped handle's clear() goes to the buffer, the entry outlives the file, the flush checks the file's metadata
+   and its directory.  When the document file existed and was buffered in the block the exit raises BufferedError
+   and the data buffered for the re-created job is dropped (known finding 3) ... *)
+Theorem C05_remove_in_block_refuted :
+  let obs := jrun fr0 merge (init_js 33554432) prog_remove_in_block in
+  map o_ret (skipn 5 obs) = [Ok (JObj []); Ok JNull; Err ERuntimeError] /\
+  o_files (last obs (model_obs (init_js 0) (Ok JNull))) = [].
+Proof. exact remove_in_block_refuted_w. Qed.
+Print Assumptions C05_remove_in_block_refuted.
+
+(* ... while a job whose document was not on disk before the block starts afresh after remove()+init() and the
+   block leaves exactly the unbuffered run's file *)
+Theorem C05_remove_in_block_fresh :
+  let obs := jrun fr0 merge (init_js 33554432) prog_remove_fresh in
+  map o_ret (skipn 6 obs) = [Ok (JObj []); Ok (JBool true); Ok JNull] /\
+  o_files (last obs (model_obs (init_js 0) (Ok JNull))) = [(1%N, JObj [(kx, JBool true)])].
+Proof. exact remove_in_block_fresh_w. Qed.
+Print Assumptions C05_remove_in_block_fresh.
+
 (* licence for the correspondence step: when the implementation's observations ARE the model's, the oracle's
    verdict on the implementation is its verdict on the model run (and there is no mismatch iff the model agrees
    with itself).  The harness reports how many cases agree exactly; the others are compared up to key order. *)
@@ -133,9 +153,10 @@ Print Assumptions C05_model_holds.
 Example C05_example_good_init :
   good_init {| files := [(2%N, JObj [([97%N], JInt 1)])];
                mems := [(1%N, (1%N, empty_obj)); (2%N, (2%N, empty_obj))];
-               buf := []; reg := []; cap := 10%N; caps := []; depth := 0 |}.
+               buf := []; reg := []; cap := 10%N; caps := []; depth := 0;
+               dk := {| vers := [(2%N, 1%N)]; clock := 2%N; nowrite := []; ferr := false; oerr := false |} |}.
 Proof.
-  split; [reflexivity|]. split; [reflexivity|]. split.
+  split; [reflexivity|]. split; [reflexivity|]. split; [reflexivity|]. split; [reflexivity|]. split.
   - intros h h' f m m' H1 H2. simpl in *.
     destruct (N.eqb h 1) eqn:E1; [|destruct (N.eqb h 2) eqn:E2; [|discriminate]];
       (destruct (N.eqb h' 1) eqn:E3; [|destruct (N.eqb h' 2) eqn:E4; [|discriminate]]);
